@@ -216,7 +216,10 @@ class SimplifyLogic:
         for r in repls:
             assert logic.is_leaf()
             if r in logic.data:
-                cands.append(logic.data.replace(r, repls[r]))
+                cand = logic.data.replace(r, repls[r])
+                # nothing left of the name, e.g. LIA: not a symbol
+                if cand:
+                    cands.append(cand)
         yield from [
             Simplification({node.id: Node('set-logic', c)}, []) for c in cands
         ]
